@@ -788,16 +788,17 @@ def find_distributed_partition(
 
     nparts = len(part_comm_ids)
 
-    if __debug__:
-        from pytato.distributed.verify import MissingRecvError, MissingSendError
+    # (Not just a debugging aid: without this diagnostic, an unmatched send or
+    # receive surfaces as a KeyError further down when running with -O.)
+    from pytato.distributed.verify import MissingRecvError, MissingSendError
 
-        for part in part_comm_ids:
-            for recv_id in part.recv_ids:
-                if recv_id not in lsrdg.local_recv_id_to_recv_node:
-                    raise MissingRecvError(f"no receive for '{recv_id}'")
-            for send_id in part.send_ids:
-                if send_id not in lsrdg.local_send_id_to_send_node:
-                    raise MissingSendError(f"no send for '{send_id}'")
+    for part in part_comm_ids:
+        for recv_id in part.recv_ids:
+            if recv_id not in lsrdg.local_recv_id_to_recv_node:
+                raise MissingRecvError(f"no receive for '{recv_id}'")
+        for send_id in part.send_ids:
+            if send_id not in lsrdg.local_send_id_to_send_node:
+                raise MissingSendError(f"no send for '{send_id}'")
 
     comm_id_to_part_id = {
         comm_id: ipart
